@@ -1,798 +1,10 @@
-// Harness for dialing a peer at an address (C05): a real pconn/quic transport
-// (and, for the retry loop, a real transport controller) dials over an
-// in-memory packet network whose routing table says who answers at the address
-// at each moment: the intended peer, an impostor with another key, or nobody.
+// Harness for dialing a peer at an address (C05); the scenarios live in
+// cmd/dial/dscen so that the C03 harness can reuse the expected-peer ones.
 package main
 
 import (
-	"context"
-	"fmt"
-	"io"
-	"net"
-	"runtime"
-	"strings"
-	"sync"
-	"time"
-
-	"github.com/aperturerobotics/bifrost/crypto"
-	"github.com/aperturerobotics/bifrost/link"
-	"github.com/aperturerobotics/bifrost/peer"
-	"github.com/aperturerobotics/bifrost/testbed"
-	"github.com/aperturerobotics/bifrost/transport"
-	"github.com/aperturerobotics/bifrost/transport/common/dialer"
-	"github.com/aperturerobotics/bifrost/transport/common/pconn"
-	transport_quic "github.com/aperturerobotics/bifrost/transport/common/quic"
-	tptc "github.com/aperturerobotics/bifrost/transport/controller"
-	"github.com/aperturerobotics/controllerbus/controller"
-	"github.com/aperturerobotics/util/backoff"
-	"github.com/blang/semver/v4"
-	"github.com/sirupsen/logrus"
-	"verifharness/cmd/dial/qmem"
+	"verifharness/cmd/dial/dscen"
 	"verifharness/internal/hx"
 )
 
-func main() { hx.Main(run) }
-
-const addrA = "A"
-
-var (
-	privs []crypto.PrivKey
-	pids  []peer.ID
-)
-
-func quietLogger() *logrus.Entry {
-	log := logrus.New()
-	log.SetOutput(io.Discard)
-	log.SetLevel(logrus.PanicLevel)
-	return logrus.NewEntry(log)
-}
-
-// model id of a real peer id: index+1 (1 = the dialing peer), 0 = unknown/none
-func zid(id peer.ID) int64 {
-	for i, p := range pids {
-		if p == id {
-			return int64(i + 1)
-		}
-	}
-	return 0
-}
-
-// recorder is a TransportHandler that only records.
-type recorder struct {
-	mtx   sync.Mutex
-	links []link.Link
-}
-
-func (r *recorder) HandleLinkEstablished(l link.Link) {
-	r.mtx.Lock()
-	r.links = append(r.links, l)
-	r.mtx.Unlock()
-}
-func (r *recorder) HandleLinkLost(l link.Link) {}
-
-// listener is a peer listening on its own endpoint (which claims address A).
-type listener struct {
-	pc  *qmem.PConn
-	tpt *pconn.Transport
-}
-
-// parseAddr resolves a dial string: "alias-N:A" forms (like a host name) resolve
-// to the canonical address "A", so that the dial string differs from
-// sess.RemoteAddr().String().
-func parseAddr(a string) (net.Addr, error) {
-	if i := strings.Index(a, ":"); i >= 0 && strings.HasPrefix(a, "alias-") {
-		return qmem.Addr(a[i+1:]), nil
-	}
-	return qmem.Addr(a), nil
-}
-
-// modelAddr: canonical "A" is 1, any alias string is 9 (resolved form is 1).
-func modelAddr(dialStr string) string {
-	if dialStr == addrA {
-		return "1"
-	}
-	return "9"
-}
-
-func pickDialStr(c *hx.Ctx) string {
-	switch c.Rng.Intn(5) {
-	case 0:
-		return "alias-1:A"
-	case 1:
-		return "alias-2:A"
-	}
-	return addrA
-}
-
-// noDialerLeft: after a dial finished the transport must hold no dialer entry.
-func noDialerLeft(c *hx.Ctx, q *transport_quic.Transport, desc any, when string) {
-	var keys []string
-	for i := 0; i < 400; i++ {
-		keys = q.VerifDialerKeys()
-		if len(keys) == 0 {
-			return
-		}
-		time.Sleep(500 * time.Microsecond)
-	}
-	c.Failf("stale-dialer-entry", desc, "%s: the dial finished but the dialers table still holds %v", when, keys)
-}
-
-// gate holds a dial in flight: the dialer's address parser (called by the dial
-// function once per dial) blocks until the script releases it.
-type gate struct {
-	entered chan struct{}
-	release chan struct{}
-}
-
-func (g *gate) parse(a string) (net.Addr, error) {
-	g.entered <- struct{}{}
-	<-g.release
-	return parseAddr(a)
-}
-
-// waitBlockedDialPeer waits until n goroutines are parked inside
-// Transport.DialPeer waiting for the shared dialer's result.
-func waitBlockedDialPeer(n int) {
-	buf := make([]byte, 1<<20)
-	for i := 0; i < 5000; i++ {
-		k := runtime.Stack(buf, true)
-		cnt := 0
-		for _, g := range strings.Split(string(buf[:k]), "\n\n") {
-			if strings.Contains(g, "quic.(*Transport).DialPeer") && strings.Contains(g, ".Await(") &&
-				(strings.Contains(g, "[select") || strings.Contains(g, "[chan receive")) {
-				cnt++
-			}
-		}
-		if cnt >= n {
-			return
-		}
-		time.Sleep(200 * time.Microsecond)
-	}
-	panic("callers did not reach the dialer")
-}
-
-func newListener(ctx context.Context, nw *qmem.Net, k int) *listener {
-	pc := nw.NewConn(addrA, false)
-	tpt, err := pconn.NewTransport(ctx, quietLogger(), privs[k], &recorder{}, &pconn.Opts{}, 0, pc, parseAddr, nil)
-	if err != nil {
-		panic(err)
-	}
-	go func() { _ = tpt.Execute(ctx) }()
-	return &listener{pc: pc, tpt: tpt}
-}
-
-type ev struct {
-	drop bool
-	who  int // 0 nobody, else peer index (1 = X, 2.. impostors) i.e. model id who+1
-}
-
-func (e ev) term() string {
-	if e.drop {
-		return "Drop"
-	}
-	if e.who == 0 {
-		return "(Attempt Nobody)"
-	}
-	return hx.App("Attempt", hx.App("Peer", hx.Z(int64(e.who+1))))
-}
-
-func (e ev) String() string {
-	switch {
-	case e.drop:
-		return "drop-link"
-	case e.who == 0:
-		return "nobody-answers"
-	case e.who == 1:
-		return "X-answers"
-	default:
-		return fmt.Sprintf("impostor%d-answers", e.who-1)
-	}
-}
-
-func evTerms(es []ev) (string, []string) {
-	var t, s []string
-	for _, e := range es {
-		t = append(t, e.term())
-		s = append(s, e.String())
-	}
-	return hx.List(t), s
-}
-
-// dropLink closes the dialer's link at A and waits until the transport forgot it.
-func dropLink(q *transport_quic.Transport) {
-	l, ok := q.LookupLinkWithAddr(addrA)
-	if !ok {
-		return
-	}
-	_ = l.Close()
-	for i := 0; i < 4000; i++ {
-		if cur, ok := q.LookupLinkWithAddr(addrA); !ok || cur != l {
-			return
-		}
-		time.Sleep(500 * time.Microsecond)
-	}
-	panic("link at A was not released")
-}
-
-func genScript(c *hx.Ctx, n int, allowNobody bool) []ev {
-	var es []ev
-	for len(es) < n {
-		r := c.Rng.Intn(100)
-		switch {
-		case r < 40:
-			es = append(es, ev{who: 1})
-		case r < 65:
-			es = append(es, ev{who: 2 + c.Rng.Intn(2)})
-		case r < 72 && allowNobody:
-			es = append(es, ev{who: 0})
-		default:
-			es = append(es, ev{drop: true})
-		}
-	}
-	return es
-}
-
-func run(c *hx.Ctx) {
-	c.Imports = "Link.Model Dial.Model Dial.Run"
-	c.Type = "c05_case"
-	c.Agree = "c05_agree"
-	if c.Prop != "C05" {
-		panic("unknown property " + c.Prop)
-	}
-	c.Rule = "scripts over time of who answers at the dialed address (intended peer X, one of two impostors with other keys, nobody) and link losses; Transport.DialPeer(X, A) called per attempt on a real pconn/quic transport with real in-memory QUIC/TLS handshakes, and Controller.DialPeerAddr(X, A) with the real retry loop; non-trivial = distinct script in which an impostor or nobody answers before X"
-	for i := 0; i < 5; i++ {
-		p, err := peer.NewPeer(nil)
-		if err != nil {
-			panic(err)
-		}
-		pk, _ := p.GetPrivKey(context.Background())
-		privs = append(privs, pk)
-		pids = append(pids, p.GetPeerID())
-	}
-	nLoop := c.N / 5
-	if nLoop < 4 {
-		nLoop = 4
-	}
-	nShared := c.N / 4
-	if nShared < 8 {
-		nShared = 8
-	}
-	nCalls := c.N - nLoop - nShared
-	if nCalls < 8 {
-		nCalls = 8
-	}
-	sharedFixed := [][]sev{
-		{{call: 3}, {call: 2}, {ans: 3}}, // the second caller joins a dial made for another peer
-		{{call: 2}, {call: 3}, {ans: 2}},
-		{{call: 3}, {call: 2}, {ans: 2}},
-		{{call: 2}, {call: 2}, {ans: 4}},
-		{{call: 3}, {ans: 3}, {call: 2}}, // sequential: address already connected to another peer
-		{{call: 3}, {ans: 3}, {drop: true}, {call: 2}, {ans: 2}},
-		{{call: 3}, {call: 2}, {call: 4}, {ans: 4}}, // three callers
-		{{call: 2}, {call: 3}, {ans: 1}},            // nobody
-	}
-	for i := 0; i < nShared; i++ {
-		var es []sev
-		if i < len(sharedFixed) {
-			es = sharedFixed[i]
-		} else {
-			es = genShared(c)
-		}
-		sharedCase(c, es)
-	}
-	fixed := [][]ev{
-		{{who: 1}},
-		{{who: 2}, {who: 1}},
-		{{who: 2}, {drop: true}, {who: 1}},
-		{{who: 2}, {who: 2}, {drop: true}, {who: 3}, {drop: true}, {who: 1}, {who: 1}},
-		{{who: 1}, {who: 2}, {drop: true}, {who: 2}},
-		{{who: 0}, {who: 1}},
-	}
-	// repeated dials of one non-canonical dial string across answerer changes
-	aliasFixed := [][]ev{
-		{{who: 2}, {who: 1}},
-		{{who: 2}, {drop: true}, {who: 1}, {who: 1}},
-		{{who: 1}, {drop: true}, {who: 1}},
-		{{who: 1}, {who: 1}, {who: 2}, {who: 1}},
-		{{who: 0}, {who: 2}, {who: 1}},
-	}
-	for i := 0; i < nCalls; i++ {
-		var es []ev
-		if i < len(fixed) {
-			es = fixed[i]
-		} else {
-			es = genScript(c, 2+c.Rng.Intn(6), c.Rng.Intn(6) == 0)
-		}
-		ds := pickDialStr(c)
-		if i < len(fixed) {
-			ds = addrA
-		} else if i < len(fixed)+len(aliasFixed) {
-			es, ds = aliasFixed[i-len(fixed)], "alias-1:A"
-		}
-		callsCase(c, es, ds)
-	}
-	loopFixed := [][]ev{
-		{{who: 1}},
-		{{who: 2}, {drop: true}, {who: 1}},
-		{{who: 2}, {drop: true}, {who: 3}, {drop: true}, {who: 1}},
-		{{who: 2}},
-	}
-	for i := 0; i < nLoop; i++ {
-		var es []ev
-		if i < len(loopFixed) {
-			es = loopFixed[i]
-		} else {
-			// impostors (each followed by the loss of its link) then maybe X
-			k := c.Rng.Intn(3)
-			for j := 0; j < k; j++ {
-				es = append(es, ev{who: 2 + c.Rng.Intn(2)}, ev{drop: true})
-			}
-			switch c.Rng.Intn(5) {
-			case 0:
-				if k > 0 {
-					es = es[:len(es)-1] // the impostor's link stays: X cannot be reached
-				}
-				es = append(es, ev{who: 1})
-			case 1:
-				if k == 0 {
-					es = append(es, ev{who: 2})
-				}
-			default:
-				es = append(es, ev{who: 1})
-			}
-		}
-		ds := pickDialStr(c)
-		if i < len(loopFixed) {
-			ds = addrA
-		} else if i < len(loopFixed)+2 {
-			ds = "alias-1:A"
-			es = [][]ev{{{who: 2}, {drop: true}, {who: 1}}, {{who: 2}, {who: 1}}}[i-len(loopFixed)]
-		}
-		loopCase(c, es, ds)
-	}
-}
-
-// callsCase: one DialPeer call per attempt.
-func callsCase(c *hx.Ctx, es []ev, dialStr string) {
-	ctx, cancel := context.WithCancel(context.Background())
-	defer cancel()
-	nw := qmem.NewNet()
-	ls := map[int]*listener{}
-	for _, e := range es {
-		if !e.drop && e.who > 0 && ls[e.who] == nil {
-			ls[e.who] = newListener(ctx, nw, e.who)
-		}
-	}
-	dpc := nw.NewConn("D", true)
-	rec := &recorder{}
-	d, err := pconn.NewTransport(ctx, quietLogger(), privs[0], rec, &pconn.Opts{}, 0, dpc, parseAddr, nil)
-	if err != nil {
-		panic(err)
-	}
-	go func() { _ = d.Execute(ctx) }()
-	x := pids[1]
-	var obs []string
-	var obsI []int64
-	terms, strs := evTerms(es)
-	alias := dialStr != addrA
-	desc := map[string]any{"kind": "calls", "dial": "DialPeer(X, " + dialStr + ")", "resolved_address": addrA, "script": strs}
-	impostorFirst := false
-	seenX := false
-	for i, e := range es {
-		if e.drop {
-			dropLink(d.Transport)
-			continue
-		}
-		if e.who == 0 {
-			nw.Route(addrA, nil)
-		} else {
-			nw.Route(addrA, ls[e.who].pc)
-			if e.who != 1 && !seenX {
-				impostorFirst = true
-			}
-			if e.who == 1 {
-				seenX = true
-			}
-		}
-		to := 3 * time.Second
-		if e.who == 0 {
-			to = 150 * time.Millisecond
-		}
-		var before peer.ID
-		if cur, ok := d.LookupLinkWithAddr(addrA); ok {
-			before = cur.GetRemotePeer()
-		}
-		dctx, dcancel := context.WithTimeout(ctx, to)
-		lnk, _, derr := d.DialPeer(dctx, x, dialStr)
-		dcancel()
-		if e.who == 0 {
-			d.CancelDialer(dialStr) // the dial function gives up (as after a refused connection)
-		}
-		noDialerLeft(c, d.Transport, desc, fmt.Sprintf("attempt %d (%s)", i, e))
-		// from the property text: X listens there and nothing else holds the address
-		if e.who == 1 && derr != nil && (alias || before == "" || before == x) {
-			c.Failf("x-listening-but-dial-failed", desc, "attempt %d: X answers at the address (no link to another peer registered there) but DialPeer(X) failed: %v", i, derr)
-		}
-		var o int64
-		switch {
-		case derr != nil:
-			o = -1
-		case lnk == nil:
-			o = 0
-		default:
-			o = zid(lnk.GetRemotePeer())
-			// the C05 statement itself
-			if lnk.GetRemotePeer() != x {
-				c.Failf("dial-returned-other-peer", desc, "attempt %d: DialPeer(X, A) succeeded with a link to peer %d", i, o)
-			}
-		}
-		if derr == nil && e.who != 1 {
-			if cur, ok := d.LookupLinkWithAddr(addrA); !ok || cur.GetRemotePeer() != x {
-				c.Failf("dial-success-without-x", desc, "attempt %d: DialPeer(X, A) reported success while %s", i, e)
-			}
-		}
-		obs = append(obs, hx.Z(o))
-		obsI = append(obsI, o)
-	}
-	final := int64(0)
-	if cur, ok := d.LookupLinkWithAddr(addrA); ok {
-		final = zid(cur.GetRemotePeer())
-	}
-	desc["results"] = obsI
-	desc["final_peer_at_A"] = final
-	c.Case(hx.App("Calls", "2", modelAddr(dialStr), "1", terms, hx.List(obs), hx.Z(final)), desc)
-	c.Class("calls")
-	if alias {
-		c.Class("calls-alias-dial-string")
-	}
-	if impostorFirst {
-		c.Class("calls-impostor-before-x")
-		c.Nontrivial(fmt.Sprint("c", strs))
-	}
-}
-
-type dtpt struct{ *pconn.Transport }
-
-func (d dtpt) MatchTransportType(string) bool { return true }
-
-var _ dialer.TransportDialer = dtpt{}
-
-// loopCase: Controller.DialPeerAddr with the real retry loop; the script is a
-// list of phases (who answers), a Drop closes the link currently at A.
-func loopCase(c *hx.Ctx, es []ev, dialStr string) {
-	ctx, cancel := context.WithCancel(context.Background())
-	defer cancel()
-	le := quietLogger()
-	nw := qmem.NewNet()
-	ls := map[int]*listener{}
-	for _, e := range es {
-		if !e.drop && e.who > 0 && ls[e.who] == nil {
-			ls[e.who] = newListener(ctx, nw, e.who)
-		}
-	}
-	tb, err := testbed.NewTestbed(ctx, le, testbed.TestbedOpts{PrivKey: privs[0], NoEcho: true})
-	if err != nil {
-		panic(err)
-	}
-	defer tb.Release()
-	dpc := nw.NewConn("D", true)
-	tch := make(chan *pconn.Transport, 1)
-	ctrl := tptc.NewController(le, tb.Bus, controller.NewInfo("verif/dial", semver.MustParse("0.0.1"), "dial"), pids[0], false,
-		func(ctx context.Context, le *logrus.Entry, pkey crypto.PrivKey, handler transport.TransportHandler) (transport.Transport, error) {
-			t, err := pconn.NewTransport(ctx, le, pkey, handler, &pconn.Opts{}, 0, dpc, parseAddr, nil)
-			if err != nil {
-				return nil, err
-			}
-			tch <- t
-			return dtpt{t}, nil
-		})
-	if _, err := tb.Bus.AddController(ctx, ctrl, nil); err != nil {
-		panic(err)
-	}
-	var d *pconn.Transport
-	select {
-	case d = <-tch:
-	case <-time.After(10 * time.Second):
-		panic("no transport")
-	}
-	x := pids[1]
-	terms, strs := evTerms(es)
-	alias := dialStr != addrA
-	desc := map[string]any{"kind": "loop", "dial": "Controller.DialPeerAddr(X, " + dialStr + ")", "resolved_address": addrA, "script": strs}
-	const backoffMs = 20
-	opts := &dialer.DialerOpts{Address: dialStr, Backoff: &backoff.Backoff{
-		BackoffKind: backoff.BackoffKind_BackoffKind_CONSTANT, Constant: &backoff.Constant{Interval: backoffMs}}}
-	type res struct {
-		l   link.Link
-		err error
-	}
-	resCh := make(chan res, 1)
-	started := false
-	var got *res
-	poll := func(d time.Duration) {
-		if got != nil {
-			return
-		}
-		select {
-		case r := <-resCh:
-			got = &r
-		case <-time.After(d):
-		}
-	}
-	impostor := false
-	for i, e := range es {
-		if got != nil {
-			break
-		}
-		if e.drop {
-			// the retry loop runs concurrently: switch the answerer first so that
-			// no retry reaches the old one after its link is gone
-			if i+1 < len(es) && !es[i+1].drop {
-				nw.Route(addrA, ls[es[i+1].who].pc)
-			} else {
-				nw.Route(addrA, nil)
-			}
-			dropLink(d.Transport)
-			continue
-		}
-		nw.Route(addrA, ls[e.who].pc)
-		if e.who != 1 {
-			impostor = true
-		}
-		if !started {
-			started = true
-			go func() {
-				l, err := ctrl.DialPeerAddr(ctx, x, opts)
-				resCh <- res{l, err}
-			}()
-		}
-		// wait until this phase's answerer was reached (a link to it is registered
-		// at A) or the dialer finished, then let a few more retries happen
-		for i := 0; i < 3000 && got == nil; i++ {
-			if cur, ok := d.LookupLinkWithAddr(addrA); ok && cur.GetRemotePeer() == pids[e.who] {
-				break
-			}
-			poll(time.Millisecond)
-		}
-		poll(4 * backoffMs * time.Millisecond)
-	}
-	o := int64(0)
-	if got != nil {
-		if got.err != nil || got.l == nil {
-			c.Failf("dial-peer-addr-error", desc, "DialPeerAddr returned (%v, %v)", got.l, got.err)
-			o = -1
-		} else {
-			o = zid(got.l.GetRemotePeer())
-			if got.l.GetRemotePeer() != x {
-				c.Failf("dialer-holds-other-peer", desc, "DialPeerAddr(X, A) returned a link to peer %d", o)
-			}
-		}
-	}
-	// liveness clause: X answered last with the address free => satisfied
-	last := es[len(es)-1]
-	free := len(es) == 1 || es[len(es)-2].drop || alias
-	if !last.drop && last.who == 1 && free && o != 2 {
-		c.Failf("x-reachable-but-no-link", desc, "X answered at a free address but DialPeerAddr did not return a link to X (got %d)", o)
-	}
-	// and EstablishLinkWithPeer for X is then satisfiable: the controller reports the link
-	if o == 2 {
-		found := false
-		for i := 0; i < 1000 && !found; i++ { // HandleLinkEstablished is delivered on its own goroutine
-			for _, l := range ctrl.GetPeerLinks(x) {
-				if l == got.l {
-					found = true
-				}
-			}
-			if !found {
-				time.Sleep(time.Millisecond)
-			}
-		}
-		if !found {
-			c.Failf("link-to-x-not-registered", desc, "the link returned by DialPeerAddr is not among the controller's links to X")
-		}
-	}
-	desc["result_peer"] = o
-	if got != nil {
-		noDialerLeft(c, d.Transport, desc, "after DialPeerAddr returned")
-	}
-	c.Case(hx.App("Loop", "2", modelAddr(dialStr), "1", terms, hx.Z(o)), desc)
-	c.Class("loop")
-	if alias {
-		c.Class("loop-alias-dial-string")
-	}
-	if impostor {
-		c.Class("loop-impostor")
-		c.Nontrivial(fmt.Sprint("l", strs))
-	}
-	cancel()
-	time.Sleep(2 * time.Millisecond)
-}
-
-// ---------------------------------------------------------------------------
-// overlapping DialPeer calls to the same address
-
-// sev: call = requested peer (model id 2..4), ans = who answers when the dial in
-// flight is released (model id 2..4, 1 = nobody), drop = the link at A is lost.
-type sev struct {
-	call int
-	ans  int
-	drop bool
-}
-
-func (e sev) term() string {
-	switch {
-	case e.drop:
-		return "CDrop"
-	case e.call != 0:
-		return hx.App("Call", hx.Z(int64(e.call)))
-	case e.ans == 1:
-		return "(Answer Nobody)"
-	default:
-		return hx.App("Answer", hx.App("Peer", hx.Z(int64(e.ans))))
-	}
-}
-
-func (e sev) String() string {
-	switch {
-	case e.drop:
-		return "drop-link"
-	case e.call != 0:
-		return fmt.Sprintf("DialPeer(peer%d, A)", e.call)
-	case e.ans == 1:
-		return "dial-completes:nobody"
-	default:
-		return fmt.Sprintf("dial-completes:peer%d-answers", e.ans)
-	}
-}
-
-func genShared(c *hx.Ctx) []sev {
-	var es []sev
-	n := 3 + c.Rng.Intn(5)
-	waiting := 0
-	linked := false
-	for len(es) < n {
-		r := c.Rng.Intn(100)
-		switch {
-		case r < 50:
-			es = append(es, sev{call: 2 + c.Rng.Intn(3)})
-			if !linked {
-				waiting++
-			}
-		case r < 85 && waiting > 0:
-			a := 2 + c.Rng.Intn(3)
-			if c.Rng.Intn(8) == 0 {
-				a = 1
-			}
-			es = append(es, sev{ans: a})
-			waiting = 0
-			linked = a != 1
-		case linked:
-			es = append(es, sev{drop: true})
-			linked = false
-		}
-	}
-	if waiting > 0 {
-		es = append(es, sev{ans: 2 + c.Rng.Intn(3)})
-	}
-	return es
-}
-
-func sharedCase(c *hx.Ctx, es []sev) {
-	ctx, cancel := context.WithCancel(context.Background())
-	defer cancel()
-	nw := qmem.NewNet()
-	ls := map[int]*listener{}
-	for _, e := range es {
-		if e.ans >= 2 && ls[e.ans] == nil {
-			ls[e.ans] = newListener(ctx, nw, e.ans-1)
-		}
-	}
-	g := &gate{entered: make(chan struct{}, 16), release: make(chan struct{})}
-	dpc := nw.NewConn("D", true)
-	d, err := pconn.NewTransport(ctx, quietLogger(), privs[0], &recorder{}, &pconn.Opts{}, 0, dpc, g.parse, nil)
-	if err != nil {
-		panic(err)
-	}
-	go func() { _ = d.Execute(ctx) }()
-	var terms, strs []string
-	for _, e := range es {
-		terms = append(terms, e.term())
-		strs = append(strs, e.String())
-	}
-	desc := map[string]any{"kind": "shared-dialer", "script": strs}
-	type res struct {
-		l   link.Link
-		err error
-	}
-	var chans []chan res
-	var req []int
-	inflight := false
-	waiting := 0
-	overlapDifferent := false
-	for _, e := range es {
-		switch {
-		case e.drop:
-			dropLink(d.Transport)
-		case e.call != 0:
-			ch := make(chan res, 1)
-			chans = append(chans, ch)
-			for _, r := range req[len(req)-waiting:] {
-				if r != e.call {
-					overlapDifferent = true
-				}
-			}
-			req = append(req, e.call)
-			x := pids[e.call-1]
-			_, linked := d.LookupLinkWithAddr(addrA)
-			go func() {
-				dctx, dcancel := context.WithTimeout(ctx, 4*time.Second)
-				defer dcancel()
-				l, _, err := d.DialPeer(dctx, x, addrA)
-				ch <- res{l, err}
-			}()
-			if linked {
-				// CheckAlreadyConnected answers at once
-				r := <-ch
-				ch <- r
-			} else {
-				if !inflight {
-					<-g.entered // the dialer was created and its dial function is held
-					inflight = true
-				}
-				waiting++
-				waitBlockedDialPeer(waiting)
-			}
-		default: // the dial in flight completes
-			if !inflight {
-				continue
-			}
-			if e.ans == 1 {
-				nw.Route(addrA, nil)
-			} else {
-				nw.Route(addrA, ls[e.ans].pc)
-			}
-			g.release <- struct{}{}
-			if e.ans == 1 {
-				time.Sleep(120 * time.Millisecond)
-				d.CancelDialer(addrA) // the dial function gives up
-			}
-			// all waiting callers return
-			for _, ch := range chans[len(chans)-waiting:] {
-				r := <-ch
-				ch <- r
-			}
-			inflight = false
-			waiting = 0
-		}
-	}
-	var obs []string
-	var obsI []int64
-	for i, ch := range chans {
-		o := int64(-2)
-		select {
-		case r := <-ch:
-			switch {
-			case r.err != nil:
-				o = -1
-			case r.l == nil:
-				o = 0
-			default:
-				o = zid(r.l.GetRemotePeer())
-				// the C05 statement itself
-				if r.l.GetRemotePeer() != pids[req[i]-1] {
-					c.Failf("dial-returned-other-peer", desc, "call %d: DialPeer(peer%d, A) reported success with a link to peer %d", i, req[i], o)
-				}
-			}
-		default:
-		}
-		obs = append(obs, hx.Z(o))
-		obsI = append(obsI, o)
-	}
-	desc["results"] = obsI
-	c.Case(hx.App("Shared", "1", hx.List(terms), hx.List(obs)), desc)
-	c.Class("shared-dialer")
-	if overlapDifferent {
-		c.Class("shared-dialer-different-peers-overlap")
-		c.Nontrivial(fmt.Sprint("s", strs))
-	}
-}
+func main() { hx.Main(dscen.Run) }
